@@ -230,6 +230,58 @@ def inject_ii(ch, m, ast):
     return new, {'kind': 'ii', 'reference': mast.render(ref), 'inferred': typesig.mask_name(t), 'used-as': typesig.mask_name(u), 'depth': 1, 'slot': 'same-reference'}
 
 
+def _definite_elem(dom):
+    """Element type of a quantifier domain when it is definite (range, or set of literals of one kind)."""
+    if dom[0] == 'range':
+        return N
+    if dom[0] == 'set' and dom[1]:
+        kinds = {definite_mask(v) for v in dom[1]}
+        if len(kinds) == 1 and None not in kinds and next(iter(kinds)) in (B, N, S):
+            return next(iter(kinds))
+    return None
+
+
+def _var_use(v, U):
+    r = ('var', v)
+    if U == B:
+        return binop('or', r, mast.FALSE)
+    if U == N:
+        return binop('>', binop('+', r, ONE), ('lit', 'int', '0'))
+    return binop('=', r, ('lit', 'str', '"zz"'))
+
+
+def inject_iii(ch, m, env_fields):
+    """Kind (iii): a quantified variable over a domain of definite element type is also used at a disjoint type.
+
+    Either an existing quantifier gets one more use of its variable, or a fresh well-typed quantifier with a
+    first un-narrowed use (@v = field) and one clashing use is conjoined.
+    """
+    cands = []
+    for path, req, sub, bound, slot, depth in [((), B, m, (), 'root', 0)] + list(positions(m)):
+        if sub[0] == 'q':
+            T = _definite_elem(sub[3])
+            if T is not None:
+                cands.append((path, sub, T, depth))
+    if cands and ch.int(0, 2) > 0:
+        path, q, T, depth = ch.pick(cands)
+        U = ch.pick([u for u in (B, N, S) if u != T])
+        use = _var_use(q[2], U)
+        body = binop(ch.pick(['and', 'or']), q[4], use) if ch.int(0, 3) > 0 else binop('and', use, q[4])
+        new = replace_at(m, path, ('q', q[1], q[2], q[3], body))
+        return new, {'kind': 'iii', 'slot': 'quantified-variable', 'depth': depth + 1, 'element': typesig.mask_name(T), 'used-as': typesig.mask_name(U)}
+    T = ch.pick([B, N, S])
+    lits = {B: [mast.TRUE, mast.FALSE], N: [ONE, TWO], S: [('lit', 'str', '"a"'), ('lit', 'str', '"b"')]}[T]
+    dom = ('range', ONE, ('lit', 'int', '3'), False, ch.bool()) if T == N and ch.bool() else ('set', tuple(lits))
+    v = 'q9'
+    fld = mast.own(ch.pick(env_fields)) if env_fields else lits[0]
+    first = binop(ch.pick(['=', '!=']), ('var', v), fld) if ch.bool() else binop('in', ('var', v), ('set', (fld, lits[0])))
+    U = ch.pick([u for u in (B, N, S) if u != T])
+    body = binop(ch.pick(['and', 'or', 'implies']), first, _var_use(v, U))
+    q = ('q', ch.pick(['forall', 'exists']), v, dom, body)
+    new = binop('and', m, q) if ch.bool() else binop('or', q, m)
+    return new, {'kind': 'iii', 'slot': 'quantified-variable', 'depth': 2, 'element': typesig.mask_name(T), 'used-as': typesig.mask_name(U), 'fresh': True}
+
+
 def sub_rejects(inp):
     """inp: {'kind': predicate|condition|expression|property, 'text', 'injection': {...}}: must raise TypeError."""
     k, r = lib.outcome(inp['kind'], inp['text'])
@@ -266,9 +318,13 @@ def gen_case(ch):
     k, a = lib.outcome(kind, base_text)
     if k != 'ast':
         return {'skip': 'base-rejected', 'kind': kind, 'text': base_text}
-    which = ch.int(0, 5)
+    which = ch.int(0, 6)
     res = None
-    if which <= 2:
+    if which == 6:
+        # fields of the matching primitive kind are not needed: '=' and 'in' accept any primitive field
+        prim = [n for n, ft in schema['fields'].items() if ft[0] in ('bool', 'num', 'str')]
+        res = inject_iii(ch, m, prim)
+    elif which <= 2:
         res = inject_i(ch, m)
         if res is not None and kind != 'property' and ch.int(0, 3) == 0:
             kind = 'expression' if res[1]['slot'] != 'predicate-root' else kind
@@ -293,7 +349,7 @@ def shard(ctx, shard_no, nshards, n):
             return
         sub_rejects(inp)
         inj = inp['injection']
-        nt = inj['kind'] == 'ii' or inj.get('depth', 0) >= 2
+        nt = inj['kind'] in ('ii', 'iii') or inj.get('depth', 0) >= 2
         ctx.case(inp['text'], nt, f'{inj["kind"]}:{inj["slot"].split(":")[0]}', sample={'text': inp['text'], 'injection': inj})
 
     with ctx.timed('injections'):
